@@ -140,7 +140,7 @@ def generate(template_path, repo, out_name):
         text = X.lower_try(text, log)
         ghosts = [dict(gh, text=_one_line(gh['text'])) for gh in t.get('ghosts', [])]
         text = X.insert_ghosts(text, ghosts, what, line, os.path.join(repo, t['file']))
-        loops = [{'ordinal': lp['ordinal'], 'contract': _one_line(lp['contract'])} for lp in t.get('loops', [])]
+        loops = [{'ordinal': lp['ordinal'], 'contract': _one_line(lp['contract']), 'optional': lp.get('optional', False)} for lp in t.get('loops', [])]
         text, nloops = X.attach_loop_contracts(text, loops, what, line, os.path.join(repo, t['file']))
         if 'nloops' in t and int(t['nloops']) != nloops:
             raise X.ExtractionBroken('%s: body has %d loops, unit expects %d' % (what, nloops, t['nloops']))
